@@ -9,56 +9,6 @@ COMMON_TRUSTED = [
 ]
 
 PROPS = {
-    "C03": {
-        "coq_dir": "C03",
-        "harness": "c03",
-        "model_files": ["Model", "Msg", "Glue"],
-        "proof_files": ["Properties"],
-        "cases": {"quick": 3000, "thorough": 150000},
-        "consts": ["C03_MAX_LEN_BYTES", "C03_MAX_PROTOCOLS"],
-        "nontrivial_min_trace": 12,
-        "rule": "three streams per run: (i) corpus witnesses (V1Lazy pitfall, 16 KiB frame boundary, names with newline / equal to the header / "
-                "without slash); (ii) exhaustive small scope: all pairs of dialer list x listener list over the pool {/a, /a/b, /c} with length <= 2 "
-                "(quick, 2 chunkings) or <= 3 (thorough, 4 chunkings incl. byte-at-a-time and Pending-every-other-call), payloads that start with a "
-                "negotiation-looking frame; (iii) seeded random cases, 50% two-ended stream negotiation (pool of 2-7 names drawn from nested, fallback-style, "
-                "odd-byte, 126..300-byte, 16381..16384-byte and invalid names; lists of 0-6 names; V1 80% / V1Lazy 20%; scheduler script of 0-40 "
-                "polls then alternation; four independent read/write scripts of chunk limits and injected Pendings; payloads of 0-150 bytes incl. "
-                "frames that look like proposals/header/na), 20% ONE real future (dialer or listener) against a scripted peer byte stream (frame "
-                "sequences incl. ls / ls-responses / empty frames / garbage / mutated or truncated varints, closed at the end), 20% "
-                "webrtc_listener_negotiate and 10% WebRtcDialerState on generated and mutated payloads. For a stream case the REAL dialer_select_proto / listener_select_proto futures and the Negotiated streams they return "
-                "are polled over a scripted in-memory duplex; each side then writes its payload, closes and reads to EOF. Compared with the "
-                "extracted Coq model: both results (index or error class), read-end status, application bytes received by each side, every byte "
-                "each side wrote, bytes left unread in each direction, stuck/terminated flag. prop_ok judges the implementation trace itself: "
-                "termination, first-common agreement with the listener's first matching entry, payloads delivered unchanged with clean EOF and "
-                "empty pipes (V1, well-formed names); for V1Lazy at the last name only the dialer half; for names outside the domain only consistency; a lone future may only settle on a name whose frame occurs in its input.",
-        "trusted_base": [
-            "the scripted duplex of harness/src/c03.rs stands for the byte carrier (yamux/TCP below it is not modelled); writes to a dropped end are accepted, a dropped end reads as EOF once drained; poll_flush of the carrier is always Ready",
-            "futures are polled with a no-op waker by the scheduler script, i.e. wake-ups are not relied upon",
-            "the step from the byte-level machines of Model.v to the message-level system of Msg.v is by construction (shared decision functions d_react / l_find) plus the codec and frame-exactness theorems; it is not itself a Coq refinement theorem",
-        ],
-        "level_text": "Proof, in three layers. (1) Message codec: decode(encode m) = m and injectivity for header, na, ls and every protocol name that "
-                      "starts with '/', has no newline and differs from the header line. (2) LengthDelimited framing for EVERY fragmentation: under any "
-                      "read script, any partial availability and any point inside a frame, one poll_next of the byte-at-a-time reader either stays inside "
-                      "the frame or returns exactly the body having consumed exactly varint+body bytes - never a byte of what follows (the application "
-                      "data); under any write script the writer delivers its buffer in order without loss and reports completion only when empty. "
-                      "(3) Negotiation (V1) as a two-process system over FIFO message channels with micro-steps (emit, move one buffered message, consume "
-                      "one message) under an ARBITRARY scheduler: for all dialer lists of valid names and all listener sets, any result either side "
-                      "reports equals the dialer's first name the listener supports (else failure), both sides terminate under every fair schedule, and "
-                      "at hand-over the inbound channel holds no negotiation message, the write buffer is empty (the into_inner assertions) and no "
-                      "direction is closed. The byte-level machines (dialer, listener, Negotiated incl. V1Lazy Expecting state, "
-                      "webrtc_listener_negotiate, WebRtcDialerState) are executable in Coq and diffed against the Rust code per case.",
-        "level_note": "Not proved: a mechanised refinement from the byte-level machines to the message-level system (argued from layers 1-2 and shared "
-                      "decision functions; checked by the differential run); the ls-response (Message::Protocols) round trip; V1Lazy and the message-based "
-                      "WebRTC variant have no theorems, only the model/implementation diff and the oracle - and for V1Lazy only the dialer half of agreement "
-                      "is demanded, because of the upstream-documented pitfall (Example C03_lazy_pitfall: a payload that looks like a proposal is accepted by "
-                      "the listener); litep2p's transports use V1 only. The fallback-name -> main-protocol mapping of protocol_set.rs, negotiation timeouts "
-                      "and the differential against rust-libp2p's multistream-select are not covered.",
-        "assumptions": [
-            "protocol names are valid: start with '/', contain no newline, differ from /multistream/1.0.0, and name+1 <= 16383 bytes (others are run and diffed, but only consistency is demanded)",
-            "the carrier is a reliable FIFO byte stream per direction",
-            "fair scheduling: both futures keep being polled",
-        ],
-    },
     "C17": {
         "coq_dir": "C17",
         "harness": "c17",
@@ -82,3 +32,20 @@ PROPS = {
         "assumptions": ["max_providers_per_key >= 1 (as in the property text)", "HashMap iteration order is not observable (dumps are sorted)"],
     },
 }
+
+
+import glob as _glob
+import importlib.util as _ilu
+import os as _os
+
+
+def _load():
+    d = _os.path.join(_os.path.dirname(_os.path.abspath(__file__)), "props.d")
+    for f in sorted(_glob.glob(_os.path.join(d, "C*.py"))):
+        spec = _ilu.spec_from_file_location("props_" + _os.path.basename(f)[:-3], f)
+        mod = _ilu.module_from_spec(spec)
+        spec.loader.exec_module(mod)
+        PROPS.setdefault(_os.path.basename(f)[:-3], mod.ENTRY)
+
+
+_load()
